@@ -61,7 +61,11 @@ pub trait ConnectionState {
 
     /// set the connection error and wake the connection
     fn set_conn_error_and_wake<T: Into<ErrorOrigin>>(&self, error: T) -> ErrorOrigin {
+        #[cfg(h3_verif)]
+        crate::verif_hooks::preempt("stream:scw:0");
         let err = self.set_conn_error(error.into());
+        #[cfg(h3_verif)]
+        crate::verif_hooks::preempt("stream:scw:1");
         self.waker().wake();
         err
     }
